@@ -17,7 +17,7 @@ func compileFunction(vm *r.VM, node *syntax.FunctionDeclareStmt) *value.Function
 		return evalExecBlock(vm, node.ExecBlock, params)
 	}
 
-	return value.NewFunction(mainLogicHandler)
+	return value.NewFunction(mainLogicHandler).SetModule(vm.GetCurrentModule())
 }
 
 // （显示：A、B、C），得到D
@@ -87,6 +87,11 @@ func execDirectFunction(vm *r.VM, funcName *r.IDName, params []r.Element) (r.Ele
 	elem, module, err := vm.FindElementWithModule(funcName)
 	if err != nil {
 		return nil, err
+	}
+	// a function reached through another name (a variable it was assigned to, a parameter
+	// it was passed as) still belongs to the module that defines it
+	if fn, ok := elem.(*value.Function); ok && fn.GetModule() != nil {
+		module = fn.GetModule()
 	}
 	// pushCallFrame
 	fnCallFrame := r.NewFunctionCallFrame(module, nil)
